@@ -60,7 +60,7 @@ class VC:
         self.prop = prop
         self.tier = tier
         self.seed = seed
-        self.timeout_ms = 20000 if tier == 'quick' else 60000
+        self.timeout_ms = 60000 if tier == 'quick' else 180000
         self.results = []
         self.covers = {}
         self.paths = 0
@@ -88,6 +88,10 @@ class VC:
         self.interp = I.Interp(self)
         self.mode = 'real'
         self.foralls = []
+        # index terms contracts conventionally inspect (their probe symbols): quantified library results (np.all / np.any over a
+        # symbolic-length array) are instantiated there; instantiating a universally quantified fact anywhere is sound
+        _pi = [Sym(z3.Int(nm), 'int') for nm in ('i', 'j', 'k', 't', 'c')]
+        self.probe_indices = _pi + [_pi[0] + 1]
         CTX.sign_oracle = self._sign_oracle
         self.path_notes = []
 
